@@ -44,6 +44,11 @@ pub struct ConcCase {
     /// fail the n-th write to a write-ahead log (1-based) and every later one; None = fault free
     #[serde(default)]
     pub wal_fault: Option<u8>,
+    /// before the programs start: this many 300-byte puts are written through a 4 MiB memtable and
+    /// the database is closed, so that the open with the case's small memtable replays them into a
+    /// pile of level-0 files (level-0 slowdown/stop triggers while the first compaction runs)
+    #[serde(default)]
+    pub preload: u16,
 }
 
 #[derive(Clone, Debug, Default)]
@@ -83,6 +88,16 @@ fn execute(case: &ConcCase, check_lin: bool) -> Result<(Vec<Rec>, ConcStats), St
     let fs = Arc::new(MemFs::new(false));
     let ffs = Arc::new(crate::faultfs::FaultFs::new(fs.clone()));
     let fsd: Arc<dyn raindb::fs::FileSystem> = ffs.clone();
+    if case.preload > 0 {
+        let big = Cfg { memtable: 4 * 1024 * 1024, ..case.cfg };
+        let db = DB::open(crate::engine::options_dyn(fsd.clone(), &big)).map_err(|e| format!("preload open failed: {e:?}"))?;
+        for i in 0..case.preload as u64 {
+            let k = KEYS[(i as usize) % KEYS.len()];
+            let v = make_value(900_000_000 + i, Val { len: 300, compressible: false });
+            db.put(WriteOptions::default(), k.to_vec(), v).map_err(|e| format!("preload put failed: {e:?}"))?;
+        }
+        drop(db);
+    }
     let db = Arc::new(DB::open(crate::engine::options_dyn(fsd, &case.cfg)).map_err(|e| format!("open failed: {e:?}"))?);
     let faulty = case.wal_fault.is_some();
     if let Some(n) = case.wal_fault {
@@ -370,7 +385,7 @@ pub fn c05_strategy(forced: bool) -> BoxedStrategy<ConcCase> {
                 if forced { prop::collection::vec(directive(nt), 1..=4).boxed() } else { Just(vec![]).boxed() },
             )
         })
-        .prop_map(|(cfg, nkeys, programs, directives)| ConcCase { cfg, nkeys, programs, directives, wal_fault: None })
+        .prop_map(|(cfg, nkeys, programs, directives)| ConcCase { cfg, nkeys, programs, directives, wal_fault: None, preload: 0 })
         .boxed()
 }
 
@@ -408,7 +423,7 @@ pub fn c09_strategy() -> BoxedStrategy<ConcCase> {
                 prop::collection::vec(prop::collection::vec(op.clone(), 20..70), nt),
             )
         })
-        .prop_map(|(cfg, programs)| ConcCase { cfg, nkeys: 6, programs, directives: vec![], wal_fault: None })
+        .prop_map(|(cfg, programs)| ConcCase { cfg, nkeys: 6, programs, directives: vec![], wal_fault: None, preload: 0 })
         .boxed()
 }
 
@@ -464,6 +479,7 @@ pub fn c09_forced_strategy() -> BoxedStrategy<ConcCase> {
                     Directive { role: -1, point: "compaction.step".into(), nth, max_hold_ms: hold, linger_ms: 0 },
                 ],
                 wal_fault: None,
+                preload: 0,
             }
         });
     // Close race: the background thread is held after it drained its task buffer until the clients
@@ -476,7 +492,19 @@ pub fn c09_forced_strategy() -> BoxedStrategy<ConcCase> {
         c.directives = vec![Directive { role: -1, point: "worker.tasks_drained".into(), nth, max_hold_ms, linger_ms }];
         c
     });
-    prop_oneof![6 => random, 2 => structured, 2 => closing].boxed()
+    // Level-0 pile: a preloaded WAL is replayed into a dozen or more level-0 files; the background
+    // thread is held inside the first compaction while the clients write, so that writers meet
+    // the level-0 stop trigger and have to be woken up correctly when the pile is gone.
+    let pile = (c09_strategy(), 30u16..120, prop::collection::vec((0u32..12, 10u32..50), 1..4)).prop_map(|(mut c, preload, holds)| {
+        c.preload = preload;
+        c.cfg.memtable = 512;
+        c.directives = holds
+            .into_iter()
+            .map(|(nth, max_hold_ms)| Directive { role: -1, point: "compaction.step".into(), nth, max_hold_ms, linger_ms: 0 })
+            .collect();
+        c
+    });
+    prop_oneof![6 => random, 2 => structured, 2 => closing, 2 => pile].boxed()
 }
 
 pub enum Outcome {
